@@ -27,6 +27,10 @@ from spyne.model.primitive import NATIVE_MAP
 from spyne.util import six
 
 
+_PINF = float('inf')
+_NINF = float('-inf')
+
+
 def significant_str_len(value):
     """Length of a numeric literal without the parts that don't change the
     number: surrounding whitespace, an explicit plus sign and leading zeros."""
@@ -209,13 +213,15 @@ class Decimal(SimpleModel):
 
     @staticmethod
     def validate_native(cls, value):
+        attrs = cls.Attributes
         try:
+            # an infinite bound is no bound: it must not reject INF, nor NaN
             return SimpleModel.validate_native(cls, value) and (
                 value is None or (
-                    value >  cls.Attributes.gt and
-                    value >= cls.Attributes.ge and
-                    value <  cls.Attributes.lt and
-                    value <= cls.Attributes.le
+                    (attrs.gt == _NINF or value >  attrs.gt) and
+                    (attrs.ge == _NINF or value >= attrs.ge) and
+                    (attrs.lt == _PINF or value <  attrs.lt) and
+                    (attrs.le == _PINF or value <= attrs.le)
                 ))
 
         except (TypeError, decimal.InvalidOperation):
